@@ -538,7 +538,12 @@ package store
 //@   ghost update @s.raft.AddVoter: nAdd = nAdd + 1
 //@   assert @s.raft.AddNonvoter: [non-voter-as-requested] leaderObs && !voter0 && nAdd == 0 && rmOK && arg0 == id0 && arg1 == addr0
 //@   ghost update @s.raft.AddNonvoter: nAdd = nAdd + 1
+//@   ghost var needRm bool = false
+//@   ghost update @iter:srv: needRm = needRm || ((srv.ID == id0 || srv.Address == addr0) && !(srv.ID == id0 && srv.Address == addr0))
 //@   loop 1 invariant [scan] nAdd == 0 && rmOK && leaderObs
+//@   loop 1 invariant [every-clash-removed] needRm ==> clash
+//@   assert @s.raft.AddVoter: [clashing-entries-removed-first] needRm ==> clash
+//@   assert @s.raft.AddNonvoter: [clashing-entries-removed-first] needRm ==> clash
 //@   ensures [at-most-one-add] nAdd <= 1
 //@   ensures [not-leader-no-change] !leaderObs ==> (nAdd == 0 && !clash)
 //
